@@ -37,6 +37,21 @@ PROPS['C02'] = {
                   'domain, so within the stated trusted base every (value, count, carry-in) is decided',
     'level_note': 'trusted: Kani/CBMC/solver soundness, oracle = repeated single-bit steps written from the Intel manual',
 }
+PROPS['C03'] = {
+    'explanation': 'MUL/IMUL/DIV/IDIV, AAA/AAS/DAA/DAS/AAM/AAD, CBW/CWD kernels against wide-arithmetic references; '
+                   'divide error = Err for a zero divisor or a quotient that does not fit; no implicit check can fail',
+    'bounds': 'loop-free: every AX / DX:AX, operand, flag word, register and memory content',
+    'outside': 'the driver\'s INT 0 message and exit (inside CMDDriver::run)',
+    'backends': [(r'_frame_|_twin_', ['z3', 'cvc5', 'sat-arrays']), (r'c03_word_i?div$', ['z3', 'cvc5']), (r'.*', ['sat', 'z3'])],
+    'timeout': {'quick': 400, 'thorough': 1800},
+    'assumptions': ['word DIV/IDIV: the reference uses Rust\'s own / and % on the same operands (a divider-vs-multiplier query does not finish); byte DIV/IDIV are checked against the multiplicative definition n = q*d + r',
+                    'flags that the manual leaves undefined are not compared',
+                    'DAA/DAS: the 1979 (adjusted AL > 9Fh) and the later (original AL > 99h) formulations are both accepted',
+                    'IDIV: a quotient of exactly -128 / -32768 may either fit or raise the divide error'],
+    'level_text': 'bounded model checking without a bound (loop-free): full 48-bit DX:AX x divisor space for the word forms, '
+                  'where the failing inputs (quotient overflow, MIN / -1) are a vanishing fraction of the domain',
+    'level_note': 'trusted: Kani/CBMC/solver soundness, oracle in 64-bit arithmetic written from the Intel manual',
+}
 
 NOT_APPLICABLE = {
     'C13': 'macro definition/use is regex::Regex + a recursive call of the generated parser on heap strings; Kani cannot compile the regex engine or the LALRPOP driver (compiler ICE), and a hand model of the substitution would not be the real code',
